@@ -62,10 +62,31 @@ ShapeOf(C) == IF Len(C[3]) = 1 THEN "one" ELSE IF C[3][1][1] = "f" THEN "fg" ELS
 CxOf(m) == [DefaultCx EXCEPT !.dlct = CallDialect(m)]
 CallOpts(m) == IF CallDialect(m) # <<>> THEN << <<"dialect", CallDialect(m)>> >> ELSE <<>>
 
+\* ---- Annotated alias keys inside a GENERIC class: Box[T] declares  a: Annotated[T, "m"]; at Box[date] the position is
+\* Annotated[date, "m"], so a registration under that alias is the most specific key, then the exact key date -- at the three
+\* levels, with Box specialised inside a holder and by inheritance (DateBox(Box[date]))
+AD == <<"annotated", <<"date">>, "m">>
+AKey(k) == IF k = "al" THEN AD ELSE <<"date">>
+ARegs == { l \o "_" \o k : l \in Levels, k \in {"al", "ex"} }
+ATable(l, R) == LET ks == SelectSeq(<<"al", "ex">>, LAMBDA k : (l \o "_" \o k) \in R) IN
+                [i \in DOMAIN ks |-> <<AKey(ks[i]), <<"mark", l \o "_" \o ks[i], "both">> >>]
+ABoxCfg(R) == << <<"flags", {"dialect_flag"}>> >>
+              \o (IF ATable("gd", R) # <<>> THEN << <<"dialect", << <<"name", "GD">>, <<"strategy", ATable("gd", R)>> >> >> >> ELSE <<>>)
+              \o (IF ATable("cs", R) # <<>> THEN << <<"cfg_strategy", ATable("cs", R)>> >> ELSE <<>>)
+ABox(R) == <<"dc", "Box", << <<"a", AD, <<"req">>, <<>> >>, <<"l", <<"list", <<"date">> >>, <<"fac", L(<<>>)>>, <<>> >> >>,
+             ABoxCfg(R) \o << <<"generic", << <<"T">>, << <<"date">> >>, << <<"a", <<"annotated", <<"tvar", "T">>, "m">> >>, <<"l", <<"list", <<"tvar", "T">> >> >> >> >> >> >> >>
+AHold(R) == <<"dc", "AH", << <<"b", ABox(R), <<"req">>, <<>> >> >>, << <<"flags", {"dialect_flag"}>> >> >>
+ASub(R) == <<"dc", "DateBox", DcFields(ABox(R)), ABoxCfg(R) \o << <<"bases", <<ABox(R)>> >> >> >>
+ACall(R) == IF ATable("cd", R) # <<>> THEN << <<"name", "CD">>, <<"strategy", ATable("cd", R)>> >> ELSE <<>>
+ADate == <<"date", 2024, 2, 29>>
+AValue(C) == IF C[2] = "AH" THEN <<"obj", "AH", << <<"obj", "Box", <<ADate, L(<<ADate>>)>> >> >> >> ELSE <<"obj", "DateBox", <<ADate, L(<<ADate>>)>> >>
+AInput(C) == LET d == Dct(<< <<S("a"), S("2024-02-29")>>, <<S("l"), L(<<S("2024-02-29")>>)>> >>) IN IF C[2] = "AH" THEN Dct(<< <<S("b"), d>> >>) ELSE d
+IsA(C) == C[2] \in {"AH", "DateBox"}
 Init == T = <<"start">> /\ v = <<"nov">> /\ kind = "start" /\ call = <<>>
 Next == \/ kind = "start" /\ \E m \in Assignments, sh \in Shapes : T' = Class(m, sh) /\ call' = CallDialect(m) /\ v' = v /\ kind' = "type"
-        \/ kind = "type" /\ T' = T /\ call' = call /\ v' = Value(ShapeOf(T)) /\ kind' = "value"
-        \/ kind = "type" /\ T' = T /\ call' = call /\ v' = Input(ShapeOf(T)) /\ kind' = "input"
+        \/ kind = "start" /\ \E R \in SUBSET ARegs, hold \in BOOLEAN : T' = (IF hold THEN AHold(R) ELSE ASub(R)) /\ call' = ACall(R) /\ v' = v /\ kind' = "type"
+        \/ kind = "type" /\ T' = T /\ call' = call /\ v' = (IF IsA(T) THEN AValue(T) ELSE Value(ShapeOf(T))) /\ kind' = "value"
+        \/ kind = "type" /\ T' = T /\ call' = call /\ v' = (IF IsA(T) THEN AInput(T) ELSE Input(ShapeOf(T))) /\ kind' = "input"
 
 Cx == [DefaultCx EXCEPT !.dlct = call]
 Wire == Pack(T, Cx, v)
@@ -75,11 +96,18 @@ COpts == IF call # <<>> THEN << <<"dialect", call>> >> ELSE <<>>
 \* ---- model theorem: exactly one level applies -- the output is the built-in rendering, the untouched
 \* value (pass_through) or ONE marker
 Rendered(w) == w \in { L(<<S("2024-02-29")>>), L(<< <<"date", 2024, 2, 29>> >>) } \/ (w[1] = "str")
-ExactlyOne == kind = "value" => \A i \in DOMAIN Wire[2] : Rendered(Wire[2][i][2])
+ExactlyOne == (kind = "value" /\ ~IsA(T)) => \A i \in DOMAIN Wire[2] : Rendered(Wire[2][i][2])
 \* a field without field-level registrations is rendered exactly as if it were alone in the class
-SiblingFree == (kind = "value" /\ ShapeOf(T) # "one") =>
+SiblingFree == (kind = "value" /\ ~IsA(T) /\ ShapeOf(T) # "one") =>
                  LET alone == <<"dc", "C", << <<"g", NTt, <<"req">>, <<>> >> >>, T[4]>> IN
                  PairsGet(Wire[2], S("g")) = PairsGet(Pack(alone, Cx, <<"obj", "C", <<DV>> >>)[2], S("g"))
+
+\* the alias registration of the highest level wins over every exact registration; without one, the exact key decides
+AliasFirst ==
+  (kind = "value" /\ IsA(T)) =>
+     LET doc == IF T[2] = "AH" THEN PairsGet(Wire[2], S("b")) ELSE Wire
+         a == PairsGet(doc[2], S("a")) IN
+     a[1] = "str" /\ (a # S("2024-02-29") => \E l \in Levels, k \in {"al", "ex"} : a = S("S" \o l \o "_" \o k))
 
 EmitInv == /\ kind = "value" => PrintT(ToJson(<<"vec", T, v, Wire, <<"unknown">>, COpts>>))
            /\ kind = "input" => PrintT(ToJson(<<"inp", T, v, Dec, {}, COpts>>))
